@@ -1496,6 +1496,81 @@ def _scenario(seed: int, kind: str):
         f = g.fresh_t()
         S(id=f, op="arrange", src=m, by=[{"col": [a.tid, "id"]}])
         S(id="x1", op="export", src=f, target="polars", ordered=True)
+    elif kind == "scen_having_chain":
+        # several separate `filter` verbs after a grouped summarize: every one of them acts on the aggregated rows (HAVING is a conjunction)
+        a = table("src0", [("g", "int"), ("x", "int"), ("y", "int")], nrows=r.choice([6, 8, 10]))
+        gb, sm = g.fresh_t(), g.fresh_t()
+        S(id=gb, op="group_by", src=a.tid, cols=[{"col": [a.tid, "g"]}])
+        S(id=sm, op="summarize", src=gb, cols=[["s", {"fn": "sum", "args": [{"col": [a.tid, "x"]}]}], ["n", {"fn": "count_star", "args": []}],
+                                              ["m", {"fn": "max", "args": [{"col": [a.tid, "y"]}]}]])
+        preds = [{"fn": "greater_equal", "args": [{"c": "n"}, {"lit": r.choice([1, 2])}]},
+                 {"fn": "greater_than", "args": [{"c": "s"}, {"lit": r.choice([-5, 0, 3])}]},
+                 {"fn": "is_not_null", "args": [{"c": "g"}]},
+                 {"fn": "less_than", "args": [{"c": "m"}, {"lit": r.choice([5, 50])}]}]
+        r.shuffle(preds)
+        cur = sm
+        for p_ in preds[:r.randint(2, 4)]:
+            nxt = g.fresh_t()
+            S(id=nxt, op="filter", src=cur, preds=[p_])
+            cur = nxt
+        S(id="x1", op="export", src=cur, target="polars", ordered=False)
+    elif kind == "scen_subq_count":
+        # a verb compiled through an alias() subquery that mentions *no* column of the subquery: the inner SELECT still needs a column
+        a = table("src0", [("g", "int"), ("x", "int")], nrows=r.choice([4, 6, 9]))
+        cur = a.tid
+        first = r.choice(["slice", "summarize", "window_filter"])
+        if first == "slice":
+            ar, sl = g.fresh_t(), g.fresh_t()
+            S(id=ar, op="arrange", src=cur, by=[{"col": [a.tid, "id"]}])
+            S(id=sl, op="slice_head", src=ar, n=r.choice([2, 3]), offset=r.choice([0, 1]))
+            cur = sl
+        elif first == "summarize":
+            gb, sm = g.fresh_t(), g.fresh_t()
+            S(id=gb, op="group_by", src=cur, cols=[{"col": [a.tid, "g"]}])
+            S(id=sm, op="summarize", src=gb, cols=[["s", {"fn": "sum", "args": [{"col": [a.tid, "x"]}]}]])
+            cur = sm
+        else:
+            mt = g.fresh_t()
+            S(id=mt, op="mutate", src=cur, cols=[["rn", {"fn": "row_number", "args": [], "arrange": [{"col": [a.tid, "id"]}]}]])
+            cur = mt
+        al, sm2 = g.fresh_t(), g.fresh_t()
+        S(id=al, op="alias", src=cur)
+        S(id=sm2, op="summarize", src=al, cols=[["n", {"fn": "count_star", "args": []}]] + ([["one", {"lit": 1}]] if r.random() < 0.3 else []))
+        S(id="x1", op="export", src=sm2, target="polars", ordered=False)
+    elif kind == "scen_alias_below_limit":
+        # an alias() *below* a slice_head, then a verb that cannot share the SELECT with the LIMIT: the alias is of no help (the
+        # subquery would have to be above the LIMIT), so SQL either raises SubqueryError or gives what Polars gives
+        a = table("src0", [("a", "int"), ("b", "int")], nrows=r.choice([5, 7, 9]))
+        cur = a.tid
+        if r.random() < 0.5:
+            nxt = g.fresh_t()
+            S(id=nxt, op="mutate", src=cur, cols=[["w", {"fn": "add", "args": [{"col": [a.tid, "a"]}, {"lit": 1}]}]])
+            cur = nxt
+        al, ar, sl, last = g.fresh_t(), g.fresh_t(), g.fresh_t(), g.fresh_t()
+        if r.random() < 0.5:
+            # the order is fixed before the alias: the slice_head is the only verb between the alias and the offending verb
+            S(id=ar, op="arrange", src=cur, by=[{"col": [a.tid, "id"]}])
+            S(id=al, op="alias", src=ar)
+            S(id=sl, op="slice_head", src=al, n=r.choice([2, 3]), offset=r.choice([0, 1]))
+        else:
+            S(id=al, op="alias", src=cur)
+            S(id=ar, op="arrange", src=al, by=[{"col": [al, "id"]}])
+            S(id=sl, op="slice_head", src=ar, n=r.choice([2, 3]), offset=r.choice([0, 1]))
+        cur = sl
+        for _ in range(r.choice([0, 0, 1])):
+            nxt = g.fresh_t()
+            S(id=nxt, op="select", src=cur, cols=["id", "a", "b"])
+            cur = nxt
+        what = r.choice(["filter", "filter", "arrange", "summarize", "window"])
+        if what == "filter":
+            S(id=last, op="filter", src=cur, preds=[{"fn": "greater_than", "args": [{"col": [al, "a"]}, {"lit": r.choice([0, 1, 2])}]}])
+        elif what == "arrange":
+            S(id=last, op="arrange", src=cur, by=[{"fn": "descending", "args": [{"col": [al, "b"]}]}, {"col": [al, "id"]}])
+        elif what == "summarize":
+            S(id=last, op="summarize", src=cur, cols=[["s", {"fn": "sum", "args": [{"col": [al, "a"]}]}], ["n", {"fn": "count_star", "args": []}]])
+        else:
+            S(id=last, op="mutate", src=cur, cols=[["rn", {"fn": "row_number", "args": [], "arrange": [{"col": [al, "id"]}]}]])
+        S(id="x1", op="export", src=last, target="polars", ordered=(what == "arrange"))
     elif kind == "scen_empty_args":
         # verbs called without arguments are legal and do nothing: filter() keeps every row, mutate() / rename({}) / drop()
         # change nothing (arrange needs a key) - between ordinary verbs, on a table with rows
